@@ -78,6 +78,13 @@ func (x *Exec) initialWorld(st *State) *World {
 	for _, fam := range x.prog.familyList() {
 		w.comps[fam.Name] = Sym("w0_"+fam.Name, fam.Sort)
 	}
+	if nt := x.prog.lookupType("nft", "NFT"); nt != nil {
+		if ct := x.prog.lookupType("nft", "Class"); ct != nil && SortOf(nt) != nil && SortOf(ct) != nil {
+			w.comps["nftTokens"] = Sym("w0_nftTokens", MapSort(nftKeySort, SortOf(nt)))
+			w.comps["nftOwner"] = Sym("w0_nftOwner", ArraySort(nftKeySort, SBytes))
+			w.comps["nftClasses"] = Sym("w0_nftClasses", MapSort(SStr, SortOf(ct)))
+		}
+	}
 	for _, g := range x.prog.ghosts {
 		w.comps[g.Name] = Sym("w0_"+g.Name, g.Sort)
 	}
